@@ -134,7 +134,7 @@ def check_container(kind, elem):
     return check_type(spec)
 
 
-GRAMMAR = {"quick": "thorough", "thorough": "deep"}  # the term grammars are cheap: quick already uses the larger one
+GRAMMAR = {"quick": "thorough", "thorough": "xdeep"}  # the term grammars are cheap: quick already uses the larger one
 
 
 def run(tier: str, seed: int) -> Result:
